@@ -14,6 +14,8 @@ PROGRAMS = {
     "list_type": "@guppy\ndef main(x: list[int]) -> list[int]:\n    return x\n",
     "tensor": ("@guppy\ndef f(x: int) -> int:\n    return x\n\n@guppy\ndef g(x: int) -> int:\n    return x\n\n"
                "@guppy\ndef main() -> tuple[int, int]:\n    h = (f, g)\n    return h(1, 2)\n"),
+    "tensor_syn": ("@guppy\ndef f(x: int) -> int:\n    return x\n\n@guppy\ndef g(x: int) -> int:\n    return x\n\n"
+                   "@guppy\ndef main() -> int:\n    h = (f, g)\n    a, b = h(1, 2)\n    return a + b\n"),
     "closure": "@guppy\ndef main() -> None:\n    x = 42\n\n    def inner() -> int:\n        return x\n",
     "modifier": "@guppy\ndef main() -> None:\n    with dagger:\n        pass\n",
     "plain": "@guppy\ndef main(x: int) -> int:\n    return x + 1\n",
